@@ -1592,13 +1592,11 @@ chkpnta(void)
 		const uid_t u = snds[i].key;
 
 		if (UNLIKELY(fd < -1)) {
-			/* just do them one by one here
+			/* just do this one again here
 			 * and keep our fingers crossed that we
 			 * closed enough file descriptors already */
-			for (; i < nsnds; i++) {
-				rc += chkpnt1(u);
-			}
-			break;
+			rc += chkpnt1(u);
+			continue;
 		}
 		if (snprintf(fn, sizeof(fn), ".echsq_%u.ics", u) < 0) {
 			/* oh fuck, there's really nothing we can do */
